@@ -160,20 +160,25 @@ pub fn render(e: &R, out: &mut String) {
         R::KeepOut => out.push_str("\\K"),
         R::CondGroup(n, t, f) => {
             out.push_str(&format!("(?({})", n));
-            render_branch(t, out);
-            out.push('|');
-            render_branch(f, out);
+            render_branches(t, f, out);
             out.push(')');
         }
         R::CondExpr(c, t, f) => {
             out.push_str("(?(");
             render(c, out);
             out.push(')');
-            render_branch(t, out);
-            out.push('|');
-            render_branch(f, out);
+            render_branches(t, f, out);
             out.push(')');
         }
+    }
+}
+
+/// `yes|no`; an omitted `no` (empty) is written without the bar when `yes` is not empty: `(?(1)yes)`
+fn render_branches(t: &R, f: &R, out: &mut String) {
+    render_branch(t, out);
+    if !(matches!(f, R::Empty) && !matches!(t, R::Empty)) {
+        out.push('|');
+        render_branch(f, out);
     }
 }
 
